@@ -36,6 +36,7 @@ type State struct {
 	depth    int
 	discoverLoop *loopInfo
 	loopHeads    map[*ssa.BasicBlock]*State
+	euclidSeen   map[string]bool
 }
 
 type rangeIter struct {
@@ -50,6 +51,12 @@ func (st *State) clone() *State {
 		n.loopHeads = make(map[*ssa.BasicBlock]*State, len(st.loopHeads))
 		for k, v := range st.loopHeads {
 			n.loopHeads[k] = v
+		}
+	}
+	if st.euclidSeen != nil {
+		n.euclidSeen = make(map[string]bool, len(st.euclidSeen))
+		for k, v := range st.euclidSeen {
+			n.euclidSeen[k] = v
 		}
 	}
 	n.asm = st.asm[:len(st.asm):len(st.asm)]
